@@ -947,10 +947,10 @@ func c29() {
 		return
 	}
 	thorough := evid.Thorough()
-	budget := 70 * time.Second
-	if thorough {
-		budget = 10 * time.Minute
-	}
+	// quick: a fixed amount of work (all single-step histories + the quickL2 simplest two-step histories), so that
+	// the evidence does not depend on the speed of the machine; the time budget is only a safety net there
+	budget := 10 * time.Minute
+	const quickL2 = 600
 	if b := envInt("VERIF_C29_BUDGET", 0); b > 0 {
 		budget = time.Duration(b) * time.Second
 	}
@@ -1165,6 +1165,15 @@ func c29() {
 		}
 		if timeUp() {
 			r.Capped(fmt.Sprintf("time budget reached before length %d: none of its %d histories was run; all histories of length <= %d were run (modulo the state-neutral reduction)", l, len(hist), complete))
+			break
+		}
+		if !thorough && l == 2 && len(hist) > quickL2 {
+			all := len(hist)
+			hist = hist[:quickL2]
+			if sk := runLevel(l, hist); sk > 0 {
+				r.Capped(fmt.Sprintf("length-2 histories: %d of the quick tier's %d run before the safety time budget", quickL2-sk, quickL2))
+			}
+			r.Capped(fmt.Sprintf("quick tier: the %d simplest of %d length-2 histories (a fixed share); all histories of length 1 were run", quickL2, all))
 			break
 		}
 		sk := runLevel(l, hist)
